@@ -199,9 +199,10 @@ def Verdict.ok : Verdict → Bool
   | .bothReject _ | .bothAccept _ => true
   | _ => false
 
-def compare (cfg : Config) (sw : Switches) (ops : FloatOps F) (txt : F → List Nat) (mult : Option Nat)
-    (nowMs : Nat) (e : Entry F) : Verdict :=
-  let (res, bytes) := runEmf cfg sw ops txt mult nowMs e
+/-- compare an operational outcome (result, bytes) with the spec's `records` -/
+def compareWith (out : Emf.Result × List Nat) (cfg : Config) (sw : Switches) (ops : FloatOps F)
+    (txt : F → List Nat) (mult : Option Nat) (nowMs : Nat) (e : Entry F) : Verdict :=
+  let (res, bytes) := out
   match res, records cfg sw ops mult e with
   | .validation ks, .error errs =>
     if kindBag ks == kindBag (errs.map errKind) then .bothReject ks.length
@@ -216,6 +217,10 @@ def compare (cfg : Config) (sw : Switches) (ops : FloatOps F) (txt : F → List 
   | .validation _, .ok _ => .classDiffers "reject" "accept"
   | .ok, .error _ => .classDiffers "accept" "reject"
   | .io, _ => .classDiffers "io" "-"
+
+def compare (cfg : Config) (sw : Switches) (ops : FloatOps F) (txt : F → List Nat) (mult : Option Nat)
+    (nowMs : Nat) (e : Entry F) : Verdict :=
+  compareWith (runEmf cfg sw ops txt mult nowMs e) cfg sw ops txt mult nowMs e
 
 def agree (cfg : Config) (sw : Switches) (ops : FloatOps F) (txt : F → List Nat) (mult : Option Nat)
     (nowMs : Nat) (e : Entry F) : Bool :=
@@ -280,9 +285,12 @@ def embedExact (c : Emf.Config) (items : List Emf.Item) : Bool :=
   let (cfg, sw) := embedCfg c
   decide (toEmfCfg cfg sw = c) && decide (toEmfEntry textOps textTxt (embedEntry items) = items)
 
-/-- compare the two models on an OPERATIONAL input -/
+/-- compare the two models on an OPERATIONAL input (the operational model runs on the input itself, not on
+the image of its reading: when `embedExact` is false a disagreement is expected) -/
 def compareEmf (c : Emf.Config) (mult : Option Nat) (nowMs : Nat) (items : List Emf.Item) : Verdict :=
   let (cfg, sw) := embedCfg c
-  compare cfg sw textOps textTxt mult nowMs (embedEntry items)
+  let r := Emf.format (Emf.Consts.ofConfig c) (Emf.State.fresh c)
+    { items := items, mult := mult, badRate := false, nowMs := nowMs, ioBudget := none }
+  compareWith (r.2.1, r.2.2.bytes) cfg sw textOps textTxt mult nowMs (embedEntry items)
 
 end EmfRefine
